@@ -158,4 +158,198 @@ theorem periodic_srf_rot2d (sched : Sched) (hs : sched.Admissible) (θ : ℝ) (m
       srfField sched (derot2 θ) anis sf (modesGrid mreq (deltaK period anis) 2) z1 z2 N x 2 X i :=
   periodic_srf sched hs (derot2 θ) mreq period anis sf z1 z2 N 2 X x x' d₀ c hL ha (derot2_rows θ d₀ hd₀) hshift i
 
+/-! ## after updates: histories of `update(model, seed, period, mode_no)` calls (setters, `SRF.__call__`) -/
+
+set_option linter.unusedSimpArgs false in
+/-- one `update` call keeps the invariant "the stored grid is the grid derived from the stored period, the stored
+    model's anisotropy and the stored mode counts, and the amplitudes were redrawn after the last grid change" —
+    whatever the call (new / equal model, period, mode_no, seed, any combination, also calls that raise).
+    Needs the model comparison to be exact on the anisotropy (`EqvExact`); see `isclose_not_exact`. -/
+theorem update_inv (eqv : Mdl ℝ → Mdl ℝ → Bool) (heq : EqvExact eqv) (st : St ℝ) (u : Upd ℝ) (h : Inv st) :
+    Inv (update eqv st u).1 := by
+  rcases u with ⟨um, us, up, umn⟩
+  unfold update
+  simp only []
+  split_ifs with g1 g2 g3 g4
+  · exact h
+  · exact h
+  · exact h
+  · exact h
+  · intro _
+    cases up with
+    | some p =>
+      -- a period is given: delta_k is recomputed from the model that ends up stored
+      cases um with
+      | some m =>
+        cases umn with
+        | some mn =>
+          simp only [seedStep, modesStep, gridStep, Option.isSome_some, Option.isNone_some, Bool.or_true, Bool.true_or,
+            if_true, Option.getD_some, Bool.false_eq_true, if_false]
+          exact resetSeed_model_coherent _ m us (gridOK_setModes _ _ _ (fun d => rfl))
+        | none =>
+          simp only [seedStep, modesStep, gridStep, Option.isSome_some, Option.isNone_none, Bool.or_true, Bool.true_or,
+            if_true, Option.getD_some, Option.isSome_none, Bool.or_false]
+          exact resetSeed_model_coherent _ m us (gridOK_setModes _ _ _ (fun d => rfl))
+      | none =>
+        have hm : st.hasModel = true := by simpa using g1
+        cases umn with
+        | some mn =>
+          simp only [seedStep, modesStep, gridStep, Option.isSome_some, Option.isNone_some, Bool.or_true, Bool.true_or,
+            if_true, Option.getD_none, Bool.false_eq_true, if_false]
+          exact resetSeed_coherent _ us (gridOK_setModes _ _ _ (fun d => rfl)) hm
+        | none =>
+          simp only [seedStep, modesStep, gridStep, Option.isSome_some, Option.isNone_none, Bool.or_true, Bool.true_or,
+            if_true, Option.getD_none, Option.isSome_none, Bool.or_false]
+          exact resetSeed_coherent _ us (gridOK_setModes _ _ _ (fun d => rfl)) hm
+    | none =>
+      -- no period given: the state has one (third guard), so it is coherent
+      have hp : st.hasPeriod = true := by simpa using g3
+      have hc := h hp
+      have hm := hc.hasModel
+      cases um with
+      | some m =>
+        by_cases he : eqv st.model m = true
+        · -- the given model compares equal: nothing is recomputed from it
+          have hanis : st.model.anis = m.anis := funext (heq _ _ he)
+          cases umn with
+          | some mn =>
+            simp only [seedStep, modesStep, gridStep, isNewModel, hm, he, hp, Option.isSome_some, Option.isSome_none,
+              Bool.and_self, Bool.not_true, Bool.false_and, Bool.or_false, Bool.false_eq_true, if_false, Bool.or_true,
+              Bool.true_or, if_true, Option.getD_some]
+            exact resetSeed_model_coherent _ m us (gridOK_setModes _ _ _ (fun d => by rw [← hanis]; exact hc.grid.dk d))
+          | none =>
+            cases us with
+            | some s =>
+              simp only [seedStep, modesStep, gridStep, isNewModel, hm, he, hp, Option.isSome_none,
+                Bool.and_self, Bool.not_true, Bool.false_and, Bool.or_false, Bool.false_eq_true, if_false, Option.getD_some]
+              exact setSeed_coherent _ s hc
+            | none =>
+              simp only [seedStep, modesStep, gridStep, isNewModel, hm, he, hp, Option.isSome_none,
+                Bool.and_self, Bool.not_true, Bool.false_and, Bool.or_false, Bool.false_eq_true, if_false, Option.getD_some]
+              exact hc
+        · -- a new model: delta_k and the modes are recomputed with its anisotropy
+          have he' : eqv st.model m = false := by simpa using he
+          cases umn with
+          | some mn =>
+            simp only [seedStep, modesStep, gridStep, isNewModel, hm, he', hp, Option.isSome_some, Option.isSome_none,
+              Option.isNone_some, Bool.and_false, Bool.not_false, Bool.and_self, Bool.or_true, Bool.true_or, Bool.false_or,
+              if_true, Option.getD_some, Bool.false_eq_true, if_false]
+            exact resetSeed_model_coherent _ m us (gridOK_setModes _ _ _ (fun d => rfl))
+          | none =>
+            simp only [seedStep, modesStep, gridStep, isNewModel, hm, he', hp, Option.isSome_none,
+              Option.isNone_none, Bool.and_false, Bool.not_false, Bool.and_self, Bool.or_true, Bool.true_or, Bool.false_or,
+              if_true, Option.getD_some, Bool.or_false]
+            exact resetSeed_model_coherent _ m us (gridOK_setModes _ _ _ (fun d => rfl))
+      | none =>
+        cases umn with
+        | some mn =>
+          simp only [seedStep, modesStep, gridStep, isNewModel, Option.isSome_some, Option.isSome_none, Bool.false_and,
+            Bool.or_false, Bool.false_eq_true, if_false, Bool.true_or, Bool.or_true, if_true, Option.getD_none]
+          exact resetSeed_coherent _ us (gridOK_setModes _ _ _ hc.grid.dk) hm
+        | none =>
+          cases us with
+          | some s =>
+            simp only [seedStep, modesStep, gridStep, isNewModel, Option.isSome_none, Bool.false_and,
+              Bool.or_false, Bool.false_eq_true, if_false, Option.getD_none]
+            exact setSeed_coherent _ s hc
+          | none =>
+            simp only [seedStep, modesStep, gridStep, isNewModel, Option.isSome_none, Bool.false_and,
+              Bool.or_false, Bool.false_eq_true, if_false, Option.getD_none]
+            exact hc
+
+theorem blank_inv : Inv (blank : St ℝ) := by
+  intro h; exact absurd h (by simp [blank])
+
+theorem run_inv (eqv : Mdl ℝ → Mdl ℝ → Bool) (heq : EqvExact eqv) (us : List (Upd ℝ)) (st : St ℝ) (h : Inv st) :
+    Inv (run eqv st us) := by
+  induction us generalizing st with
+  | nil => exact h
+  | cons u us ih => exact ih _ (update_inv eqv heq st u h)
+
+/-- every state reachable from the constructor by any history of `update` calls is coherent -/
+theorem reachable_coherent (eqv : Mdl ℝ → Mdl ℝ → Bool) (heq : EqvExact eqv) (us : List (Upd ℝ)) :
+    Inv (run eqv blank us) :=
+  run_inv eqv heq us _ blank_inv
+
+/-- fresh-equivalence of the grid: in a coherent state `self._modes` is exactly the grid `_set_modes` would build now
+    from the stored period, the stored model's anisotropy and the stored mode counts -/
+theorem coherent_modes_eq_derived (st : St ℝ) (h : Coherent st) :
+    st.modes = modesGrid st.modeNo (deltaK st.period st.model.anis) st.model.dim := by
+  funext d j
+  unfold St.modes modesGrid gridOf
+  have hl : (fun d => modeLen (st.modeNo d)) = st.modeNo := funext h.grid.even
+  rw [hl, h.grid.modes, h.grid.dk]
+
+/-- C17 over histories, generator level: after ANY history of constructor / setter / update calls the generator's output
+    is periodic with the period and the anisotropy it now stores -/
+theorem after_updates_periodic (eqv : Mdl ℝ → Mdl ℝ → Bool) (heq : EqvExact eqv) (us : List (Upd ℝ))
+    (sched : Sched) (hs : sched.Admissible) (sf z1 z2 : Nat → ℝ) (N X : Nat) (pos pos' : Nat → Nat → ℝ) (c : Nat → Nat → ℤ) :
+    let st := run eqv blank us
+    st.hasPeriod = true →
+    (∀ d < st.model.dim, st.period d ≠ 0) → (∀ d < st.model.dim, anisP st.model.anis d ≠ 0) →
+    (∀ d < st.model.dim, ∀ i < X, pos' d i = pos d i + (c d i : ℝ) * st.period d / anisP st.model.anis d) →
+    ∀ i, genField sched sf st.modes z1 z2 N pos' st.model.dim X i = genField sched sf st.modes z1 z2 N pos st.model.dim X i := by
+  intro st hp hL ha hshift i
+  have hc := reachable_coherent eqv heq us hp
+  rw [coherent_modes_eq_derived st hc]
+  exact periodic_gen sched hs _ _ _ sf z1 z2 N _ X pos pos' c hL ha hshift i
+
+set_option linter.unusedSimpArgs false in
+/-- what `SRF.__call__` hands to the generator: `update(self.model, seed)`.  With an exact model comparison the
+    generator afterwards stores the anisotropy of the SRF's model (in-place changes of the model included) -/
+theorem srf_call_adopts_anis (eqv : Mdl ℝ → Mdl ℝ → Bool) (heq : EqvExact eqv) (st : St ℝ) (m : Mdl ℝ) (seed : Option Nat)
+    (hp : st.hasPeriod = true) (hm : st.hasModel = true) (hdim : m.dim = st.model.dim) :
+    (update eqv st ⟨some m, seed, none, none⟩).1.model.anis = m.anis ∧
+    (update eqv st ⟨some m, seed, none, none⟩).1.model.dim = m.dim ∧
+    (update eqv st ⟨some m, seed, none, none⟩).1.hasPeriod = true ∧
+    (update eqv st ⟨some m, seed, none, none⟩).1.period = st.period := by
+  have hg2 : decide (m.dim ≠ st.model.dim) = false := by simp [hdim]
+  unfold update
+  simp only [hp, hm, hg2, Option.isNone_some, Option.getD_some, Bool.not_true, Bool.false_and, Bool.and_false,
+    Bool.false_eq_true, if_false, oddModeNo, Bool.and_self]
+  by_cases he : eqv st.model m = true
+  · have hanis : st.model.anis = m.anis := funext (heq _ _ he)
+    cases seed with
+    | some s =>
+      simp only [seedStep, modesStep, gridStep, isNewModel, hm, he, hp, Option.isSome_none, Bool.and_self, Bool.not_true,
+        Bool.false_and, Bool.or_false, Bool.false_eq_true, if_false, setSeed]
+      split <;> exact ⟨hanis, hdim.symm, by first | exact hp | trivial | rfl, by first | trivial | rfl⟩
+    | none =>
+      simp only [seedStep, modesStep, gridStep, isNewModel, hm, he, hp, Option.isSome_none, Bool.and_self, Bool.not_true,
+        Bool.false_and, Bool.or_false, Bool.false_eq_true, if_false]
+      exact ⟨hanis, hdim.symm, by first | exact hp | trivial | rfl, by first | trivial | rfl⟩
+  · have he' : eqv st.model m = false := by simpa using he
+    simp only [seedStep, modesStep, gridStep, isNewModel, hm, he', hp, Option.isSome_none, Option.isNone_none,
+      Bool.and_false, Bool.not_false, Bool.and_self, Bool.or_true, Bool.true_or, Bool.false_or, if_true, Bool.or_false]
+    exact ⟨rfl, rfl, by first | exact hp | trivial | rfl, by first | trivial | rfl⟩
+
+/-- C17 over histories, SRF level: after any history, calling the SRF with its (possibly in-place changed or replaced)
+    model `m` gives a field that repeats along the main axes of `m` (rows of its derotation `Q`) by the stored periods -/
+theorem srf_after_updates_periodic (eqv : Mdl ℝ → Mdl ℝ → Bool) (heq : EqvExact eqv) (us : List (Upd ℝ))
+    (m : Mdl ℝ) (seed : Option Nat) (Q : Nat → Nat → ℝ)
+    (sched : Sched) (hs : sched.Admissible) (sf z1 z2 : Nat → ℝ) (N X : Nat) (x x' : Nat → Nat → ℝ) (d₀ : Nat) (c : Nat → ℤ) :
+    let st0 := run eqv blank us
+    let st := (update eqv st0 ⟨some m, seed, none, none⟩).1
+    st0.hasPeriod = true → m.dim = st0.model.dim →
+    (∀ d < m.dim, st.period d ≠ 0) → (∀ d < m.dim, anisP m.anis d ≠ 0) →
+    (∀ d < m.dim, ∑ e ∈ range m.dim, Q d e * Q d₀ e = if d = d₀ then 1 else 0) →
+    (∀ e < m.dim, ∀ i < X, x' e i = x e i + (c i : ℝ) * st.period d₀ * Q d₀ e) →
+    ∀ i, srfField sched Q m.anis sf st.modes z1 z2 N x' m.dim X i = srfField sched Q m.anis sf st.modes z1 z2 N x m.dim X i := by
+  intro st0 st hp hdim hL ha hQ hshift i
+  have hc0 := reachable_coherent eqv heq us hp
+  obtain ⟨h1, h2, h3, _⟩ := srf_call_adopts_anis eqv heq st0 m seed hp hc0.hasModel hdim
+  have hc : Coherent st := update_inv eqv heq st0 _ (reachable_coherent eqv heq us) h3
+  rw [coherent_modes_eq_derived st hc, h1, h2]
+  exact periodic_srf sched hs Q _ _ m.anis sf z1 z2 N m.dim X x x' d₀ c hL ha hQ hshift i
+
+/-- the code's model comparison (`np.isclose` on the anisotropy) is NOT exact: two models that compare equal with
+    different anisotropy (known finding F4: the generator then keeps the grid of the old anisotropy) -/
+theorem isclose_not_exact : ¬ EqvExact (mdlClose : Mdl ℝ → Mdl ℝ → Bool) := by
+  intro h
+  have := h ⟨2, fun _ => 1 / 2, 0⟩ ⟨2, fun _ => 1 / 2 + 1 / 10 ^ 7, 0⟩ (by
+    simp only [mdlClose, isclose, List.range_succ, List.range_zero, List.nil_append, List.all_cons, List.all_nil,
+      Bool.and_true, beq_self_eq_true, Bool.true_and, decide_eq_true_eq, fabs_real]
+    norm_num [abs_le]) 0
+  norm_num at this
+
 end GSV.Props.C17
